@@ -35,6 +35,19 @@ type zOut struct {
 	ZIn
 	Y int
 }
+type zTag struct {
+	Label     string `json:"label,omitempty"`
+	Num       int    `json:"num,string"`
+	Multi     int    `json:"multi,omitempty,string"`
+	NoName    int    `json:",omitempty"`
+	Dash      int    `json:"-"`
+	DashComma int    `json:"-,"`
+}
+type zUni struct {
+	Ärger int
+	A     int
+}
+type zOther struct{ C int }
 type zMyInt int64
 type zMyU8 uint8
 type zMyStr string
@@ -253,6 +266,41 @@ func zooCases() map[string]zooCase {
 	m["slice_of_array_elem_write"] = elems(catching(`sa[0][1] = 9; return "v:" + sa[0][1];`))
 	m["slice_of_struct_field_write"] = elems(catching(`ss[0].C = 5; return "v:" + ss[0].C;`))
 	m["nested_array_elem_read"] = elems(`aa[1][0] + "," + sa[0][1] + "," + ss[0].C`)
+	tagged := func(script string) zooCase {
+		return zooCase{func(vm *otto.Otto) func() string {
+			t := &zTag{Label: "l", Num: 1, Multi: 2, NoName: 3, Dash: 4, DashComma: 5}
+			vm.Set("t", t)
+			vm.Set("f", func(x zTag) string { return fmt.Sprintf("%+v", x) })
+			return func() string { return fmt.Sprintf("%+v", *t) }
+		}, script}
+	}
+	m["tagopt_read_by_tag"] = tagged(`[t.label, t.num, t.multi, t["-"]].map(String).join()`)
+	m["tagopt_read_by_name"] = tagged(`[t.Label, t.Num, t.Multi, t.NoName, t.Dash, t.DashComma].map(String).join()`)
+	m["tagopt_in"] = tagged(`["label", "num", "multi", "Label", "NoName", "Dash", "DashComma", "-", "omitempty"].map(function(k){ return (k in t) ? 1 : 0; }).join("")`)
+	m["tagopt_write_by_tag"] = tagged(`t.label = "x"; t.num = 7; t.multi = 8; [t.label, t.num, t.multi].join()`)
+	m["tagopt_write_by_name"] = tagged(`t.Label = "y"; t.NoName = 9; t.DashComma = 6; [t.Label, t.NoName, t.DashComma].join()`)
+	m["tagopt_keys"] = tagged(`t.label = "x"; Object.keys(t).sort().join()`)
+	m["tagopt_param"] = tagged(catching(`return f({label: "x", num: 7, multi: 8, NoName: 9});`))
+	m["tagopt_param_by_name"] = tagged(catching(`return f({Label: "x", Num: 7});`))
+	m["tagopt_param_dashcomma"] = tagged(catching(`return f({"-": 3});`))
+	m["unicode_field_name"] = zooCase{func(vm *otto.Otto) func() string {
+		u := &zUni{Ärger: 1, A: 2}
+		vm.Set("u", u)
+		return func() string { return fmt.Sprintf("%+v", *u) }
+	}, `String(u["\u00c4rger"]) + "," + ("\u00c4rger" in u) + "," + u.A + "," + Object.keys(u).length`}
+	structParam := func(script string) zooCase {
+		return zooCase{func(vm *otto.Otto) func() string {
+			vm.Set("mp", map[string]int{"C": 5})
+			vm.Set("other", &zOther{C: 7})
+			vm.Set("same", &zT{C: 9})
+			vm.Set("f", func(x zT) string { return fmt.Sprintf("%+v", x) })
+			return none
+		}, script}
+	}
+	m["struct_param_from_bridged_map"] = structParam(catching(`return f(mp);`))
+	m["struct_param_from_other_struct"] = structParam(catching(`return f(other);`))
+	m["struct_param_from_same_struct"] = structParam(catching(`return f(same);`))
+	m["struct_param_from_plain_object"] = structParam(catching(`return f({C: 5});`))
 	return m
 }
 
